@@ -178,7 +178,7 @@ def propagate_equalities(pc, goal, rounds=6):
 class SerExecutor(Executor):
     def __init__(self, *a, **k):
         super().__init__(*a, **k)
-        self.elem_facts = []          # facts about comprehension elements (for the record)
+        self.witness_terms = {}
 
     # ------------------------------------------------------------------ VCs --
     def add_vc(self, kind, label, pc, goal, note="", loc=""):
